@@ -34,6 +34,10 @@ BIND_ARGS = (None, 0, 1, 4, 15, 16, 31, 32, 63, 64, -1,
              SNEP, NAME_A, NAME_B, 'urn:nfc:sn:sdp', 'urn:nfc:sn:', 'foo', 3.5)
 REBIND_ARGS = (None, 33, NAME_A)
 RESOLVE_NAMES = (SNEP, NAME_A, NAME_B, 'urn:nfc:sn:ab', 'urn:nfc:sn:')
+# several lookups in one SNL PDU: all ordered pairs, and triples a-x-b
+_R = (SNEP, NAME_A, NAME_B, 'urn:nfc:sn:ab')
+RESOLVE_MANY = tuple((a, b) for a in _R for b in _R if a != b) + (
+    (NAME_A, 'urn:nfc:sn:ab', NAME_B), ('urn:nfc:sn:ab', SNEP, 'urn:nfc:sn:'))
 CONNECT_NAMES = (SNEP, NAME_A, NAME_B)
 CONNECT_ADDRS = (4, 16, 32)
 KEEP_NAMES = (NAME_A, NAME_B)      # connect and keep the connection open
@@ -179,6 +183,7 @@ class Spec(object):
         if w.bg_closable is not None:
             acts.append(('close_bg',))
         acts += [('resolve', n) for n in RESOLVE_NAMES]
+        acts += [('resolve_many',) + ns for ns in RESOLVE_MANY]
         acts += [('connect', d) for d in CONNECT_NAMES + CONNECT_ADDRS]
         if free and w.bkeep is None:
             acts += [('connect_keep', d) for d in KEEP_NAMES]
@@ -408,6 +413,61 @@ class Spec(object):
         viol.append(('C17|resolve|%s|nfc.llcp.llc.ServiceDiscovery.enqueue'
                      % cls, dict(name=name, got=got, expected=truth,
                                  table=self.table(w))))
+
+    def op_resolve_many(self, w, viol, *names):
+        """The peer asks for several names at once: its resolve() calls
+        queue their SDREQs before the link runs, so they travel in one SNL
+        PDU.  (The peer forgets earlier answers for these names first.)"""
+        B = w.B
+        sd = B.sap[1]
+        saved = (dict(sd.snl), list(sd.tids), dict(sd.sent))
+        try:
+            self._resolve_many(w, viol, names)
+        finally:
+            # the peer's cache is left as it was: the action observes A only
+            sd.snl.clear()
+            sd.snl.update(saved[0])
+            sd.tids[:] = saved[1]
+            sd.sent.clear()
+            sd.sent.update(saved[2])
+
+    def _resolve_many(self, w, viol, names):
+        B = w.B
+        for name in names:
+            B.sap[1].snl.pop(as_bytes(name), None)
+        for name in names:
+            st = lp.seq_call(lambda: B.resolve(name))
+            if st[0] != 'blocked':
+                raise RuntimeError("resolve_many: %r" % (st,))
+        if len(B.sap[1].sdreq) != len(names):
+            raise RuntimeError("resolve_many: requests not queued together")
+        lp.quiesce(w.A, B)
+        self.count('resolve_many')
+        for k, name in enumerate(names):
+            bname = as_bytes(name)
+            truth = w.model.resolve(bname)
+            if bname not in B.sap[1].snl:
+                viol.append(('C17|resolve|no answer|several names in one '
+                             'SNL|nfc.llcp.llc.ServiceDiscovery.resolve',
+                             dict(names=names, name=name,
+                                  table=self.table(w))))
+                continue
+            got = B.sap[1].snl[bname]
+            if got == truth:
+                self.count('resolve_many_ok_%s' % (
+                    'absent' if truth == 0 else 'bound'))
+                continue
+            if truth == 0:
+                cls = ('name of closed socket' if bname in w.closed_names
+                       else 'unbound name') + '|got address, expected 0'
+            elif got == 0:
+                cls = 'bound name|got 0'
+            else:
+                cls = 'bound name|got another address'
+            viol.append(('C17|resolve|%s|several names in one SNL|'
+                         'nfc.llcp.llc.ServiceDiscovery.enqueue' % cls,
+                         dict(names=names, name=name, position=k, got=got,
+                              expected=truth, table=self.table(w))))
 
     def listeners_at(self, w, addr):
         """Known sockets at addr that are listening right now with room in
